@@ -1,7 +1,17 @@
 package main
 
-// Structural sweeps: frame conditions checked over the SSA call graph of the whole in-scope program.
-// Each sweep yields named obligations whose truth is decided syntactically (solver "structural").
+// Structural sweeps: frame conditions ("nothing else writes X") checked over the SSA of the whole in-scope
+// program. Each site found is one obligation; it is discharged iff the site is on the documented list
+// (tools/govc/sweeps_expected.go). A new writer introduced by a change is a failing obligation.
+
+import (
+	"fmt"
+	"go/types"
+	"sort"
+	"strings"
+
+	"golang.org/x/tools/go/ssa"
+)
 
 type SweepResult struct {
 	Name        string
@@ -28,4 +38,137 @@ func structObl(name, kind string, ok bool, detail string) *Obligation {
 		o.Model = detail
 	}
 	return o
+}
+
+// productionFunc: functions of layer that run in the node (no mocks, simulation, CLI, test utilities).
+func productionFunc(key string) bool {
+	for _, bad := range []string{"/mocks.", "/simulation.", "/client/", "testutil", "/testutils", "_test.", "/mock."} {
+		if strings.Contains(key, bad) {
+			return false
+		}
+	}
+	return true
+}
+
+type callSite struct {
+	fn     *ssa.Function
+	key    string // function key of the enclosing function (closures attributed to their parent)
+	instr  ssa.CallInstruction
+	callee string // static callee full name or "(iface).Method"
+	method string
+	recvT  types.Type
+}
+
+func ownerKey(fn *ssa.Function) string {
+	for fn.Parent() != nil {
+		fn = fn.Parent()
+	}
+	return funcKey(fn)
+}
+
+// allCalls enumerates call instructions in production functions.
+func (p *Prog) allCalls(f func(cs callSite)) {
+	keys := p.sortedFuncKeys()
+	for _, k := range keys {
+		if !productionFunc(k) {
+			continue
+		}
+		fn := p.Funcs[k]
+		if fn.Origin() != nil && fn.Origin() != fn {
+			// generic instances: scan as well (bodies differ only by types)
+		}
+		for _, b := range fn.Blocks {
+			for _, in := range b.Instrs {
+				ci, ok := in.(ssa.CallInstruction)
+				if !ok {
+					continue
+				}
+				cc := ci.Common()
+				cs := callSite{fn: fn, key: ownerKey(fn), instr: ci}
+				if cc.IsInvoke() {
+					cs.method = cc.Method.Name()
+					cs.recvT = cc.Value.Type()
+					cs.callee = "(" + typeKeyFull(cc.Value.Type()) + ")." + cs.method
+				} else if c := cc.StaticCallee(); c != nil {
+					cs.callee = c.String()
+					if o := c.Origin(); o != nil {
+						cs.callee = o.String()
+					}
+					cs.method = c.Name()
+					if r := c.Signature.Recv(); r != nil {
+						cs.recvT = r.Type()
+					}
+				} else {
+					continue
+				}
+				f(cs)
+			}
+		}
+	}
+}
+
+// siteSweep builds obligations "site is documented" for every site selected by sel, plus
+// "documented site still exists" is NOT required (removing a writer cannot break a frame).
+func siteSweep(p *Prog, name, what string, sel func(cs callSite) (siteID string, ok bool), expected map[string]string) *SweepResult {
+	sr := &SweepResult{Name: name}
+	seen := map[string]bool{}
+	p.allCalls(func(cs callSite) {
+		id, ok := sel(cs)
+		if !ok {
+			return
+		}
+		full := cs.key + " -> " + id
+		if seen[full] {
+			return
+		}
+		seen[full] = true
+	})
+	var ids []string
+	for id := range seen {
+		ids = append(ids, id)
+	}
+	sort.Strings(ids)
+	for _, id := range ids {
+		doc, ok := expected[id]
+		o := structObl(fmt.Sprintf("sweep.%s#site(%s)", name, id), "frame.sweep", ok,
+			fmt.Sprintf("undocumented %s: %s (documented sites are listed in tools/govc/sweeps_expected.go)", what, id))
+		if ok {
+			sr.Sites = append(sr.Sites, id+"  ["+doc+"]")
+		} else {
+			sr.Sites = append(sr.Sites, id+"  [UNDOCUMENTED]")
+		}
+		sr.Obls = append(sr.Obls, o)
+	}
+	sr.Explanation = fmt.Sprintf("%d sites of '%s' found in %d production functions; each must be on the documented list", len(ids), what, len(p.Funcs))
+	return sr
+}
+
+func isBankIfaceType(t types.Type) bool {
+	np := namedPath(t)
+	return strings.HasSuffix(np, ".BankKeeper") || strings.Contains(np, "cosmos-sdk/x/bank/keeper")
+}
+
+func init() {
+	// C03: writers of total supply
+	sweeps["supply_writers"] = func(p *Prog) *SweepResult {
+		return siteSweep(p, "supply_writers", "call that mints or burns coins", func(cs callSite) (string, bool) {
+			switch cs.method {
+			case "MintCoins", "BurnCoins", "BurnTokens", "UndelegateCoinsFromModuleToAccount", "DelegateCoinsFromAccountToModule":
+				if strings.HasPrefix(cs.callee, "(") {
+					return cs.method + "@" + shortCallee(cs.callee), true
+				}
+			}
+			// callers of the layer functions that contain a mint/burn
+			if c := cs.instr.Common().StaticCallee(); c != nil && supplyChangingFuncs[funcKey(c)] {
+				return "call@" + funcKey(c), true
+			}
+			return "", false
+		}, expectedSupplyWriters)
+	}
+}
+
+func shortCallee(c string) string {
+	c = strings.ReplaceAll(c, modPath+"/", "")
+	c = strings.ReplaceAll(c, "github.com/cosmos/cosmos-sdk/", "sdk/")
+	return c
 }
